@@ -841,6 +841,7 @@ fn main() {
                     }
                     if prop == "C08" && results[0].1.is_empty() {
                         results.push(copyops::explore(thorough));
+                        results.push(copyops::explore_fixed(thorough));
                     }
                     if thorough && prop == "C08" && results.iter().all(|r| r.1.is_empty()) {
                         results.push(explore_vecs_ex(&prop, true, false, 4, vec![0, 2], "vectors-depth-4-plain-alphabet", deadline));
@@ -889,6 +890,13 @@ fn main() {
             }
             if case.starts_with("boxend:") {
                 match boxend::replay(&case) {
+                    Some(m) => println!("REPLAY VIOLATION step=0 msg={m}"),
+                    None => println!("REPLAY OK"),
+                }
+                return;
+            }
+            if case.starts_with("copyops:fixedtry=1") {
+                match copyops::replay_fixed(&case) {
                     Some(m) => println!("REPLAY VIOLATION step=0 msg={m}"),
                     None => println!("REPLAY OK"),
                 }
